@@ -629,6 +629,7 @@ ConcurrentFixedSwissTable<T, H, E>::find(const K& key) noexcept {
   while (step <= _bucket_mask) {
     // 先通过单独存储的低位哈希值进行粗筛
     Group group {_controls + base_index};
+    BABYLON_VERIF_POINT("ht:find_group_loaded");
     auto iter = group.match(checker);
     while (iter) {
       auto offset = *iter++;
@@ -768,6 +769,7 @@ ConcurrentFixedSwissTable<T, H, E>::do_emplace(K&& key_or_value,
     // 先通过单独存储的低位哈希值进行粗筛
     auto controls = _controls + base_index;
     Group group {controls};
+    BABYLON_VERIF_POINT("ht:emplace_group_loaded");
     auto iter = group.match(checker);
     while (iter) {
       auto offset = *iter++;
@@ -799,10 +801,12 @@ ConcurrentFixedSwissTable<T, H, E>::do_emplace(K&& key_or_value,
       if (control.compare_exchange_strong(control_value, Group::BUSY_CONTROL,
                                           ::std::memory_order_acquire,
                                           ::std::memory_order_relaxed)) {
+        BABYLON_VERIF_POINT("ht:busy_acquired");
         UsesAllocatorConstructor::construct(&at(index), allocator_type(),
                                             ::std::forward<K>(key_or_value),
                                             ::std::forward<Args>(args)...);
         control.store(checker, ::std::memory_order_release);
+        BABYLON_VERIF_POINT("ht:between_control_stores");
         cloned_control.store(checker, ::std::memory_order_release);
         _size << 1;
         return {{*this, index}, true};
@@ -811,10 +815,12 @@ ConcurrentFixedSwissTable<T, H, E>::do_emplace(K&& key_or_value,
         break;
       } else if (control_value == Group::BUSY_CONTROL) {
         // 其他线程正在插入过程中，避让等待
+        BABYLON_VERIF_POINT("ht:busy_observed");
         ::sched_yield();
         continue;
       } else {
         // 其他线程率先完成了插入，直接返回重试
+        BABYLON_VERIF_POINT("ht:cas_lost_to_published");
         continue;
       }
     }
@@ -1078,12 +1084,15 @@ ConcurrentTransientHashSet<T, H, E>::emplace(Args&&... args) noexcept {
 
     auto next = node->next.load(::std::memory_order_acquire);
     if (next == nullptr) {
+      BABYLON_VERIF_POINT("ht:grow_before_new");
       auto new_node = new TableNode {node->table.bucket_count() << 1};
+      BABYLON_VERIF_POINT("ht:grow_before_cas");
       auto success = node->next.compare_exchange_strong(
           next, new_node, ::std::memory_order_acq_rel);
       if (success) {
         next = new_node;
       } else {
+        BABYLON_VERIF_POINT("ht:grow_cas_lost");
         delete new_node;
       }
     }
